@@ -7,7 +7,7 @@
     origin placement, sub-image views with non-zero (also negative) Rect.Min and larger
     stride, extra stride padding (also not a multiple of 4), trailing bytes. *)
 From Coq Require Import List ZArith Bool.
-From Webp Require Import Base.Res Place.PlaceModel Place.PlaceProof Place.PlaceEdge.
+From Webp Require Import Base.Res Place.PlaceModel Place.PlaceProof Place.PlaceEdge Place.PlaceFactor.
 Import ListNotations.
 Open Scope Z_scope.
 
@@ -129,5 +129,33 @@ Theorem C19_edge_replication : forall (T : Type) (F : px -> T) d pl, valid pl ->
 Proof. intros T F d pl V. exact (edge_replication F d pl V). Qed.
 Print Assumptions C19_edge_replication.
 
-(** Not modelled (stated in CFG["partial"]): that the rest of the encoder factors through the
-    extracted arrays; it is evaluated byte-for-byte on the implementation instead. *)
+(** The source (regenerated list of every use of every image.Image parameter in the root and
+    lossy packages) lets the image reach pixels-reading code only through the modelled import
+    functions; drivers use the geometry only; in encodeLossless / encodeLosslessToWriter the single
+    import statement precedes the codec call and is the last use of the image. *)
+Theorem C19_source_factors_through_import : factors_through_import = true.
+Proof. exact source_factors_through_import. Qed.
+Print Assumptions C19_source_factors_through_import.
+
+(** Hence, for every "rest of the encoder" (any function of options, dimensions and the
+    extracted arrays: analysis, heuristics, token emission, container writing), the output is a
+    function of the logical picture: two valid placements of the same picture give the same
+    output, and bytes outside the bounds never matter. *)
+Theorem C19_encode_factors_through_import : forall (Cfg Out : Type) (rest : Cfg -> Z -> Z -> imports -> Out) cfg pl1 pl2,
+  valid pl1 -> valid pl2 -> picture pl1 = picture pl2 ->
+  encode_model Cfg Out rest cfg pl1 = encode_model Cfg Out rest cfg pl2.
+Proof. exact encode_factors_through_import. Qed.
+Print Assumptions C19_encode_factors_through_import.
+
+Theorem C19_encode_ignores_bytes_outside_bounds : forall (Cfg Out : Type) (rest : Cfg -> Z -> Z -> imports -> Out) cfg pl1 pl2,
+  valid pl1 -> valid pl2 -> same_geometry pl1 pl2 -> agree_in_bounds pl1 pl2 ->
+  encode_model Cfg Out rest cfg pl1 = encode_model Cfg Out rest cfg pl2.
+Proof. exact encode_ignores_bytes_outside_bounds. Qed.
+Print Assumptions C19_encode_ignores_bytes_outside_bounds.
+
+(** The list of pixel-reading sites (type assertions = fast paths, At() loops) per function is
+    the one the models and the harness' placement x type x configuration product were written
+    against; a new import loop or reader breaks this obligation. *)
+Theorem C19_import_sites_match_model : WebpGen.ImgUse.img_uses = doc_img_uses.
+Proof. exact import_sites_match_model. Qed.
+Print Assumptions C19_import_sites_match_model.
